@@ -127,6 +127,23 @@ func makeArray(t reflect.Type, n int) array {
 	return array{elem: elem, size: size, len: n}
 }
 
+// growArray returns an array of n elements starting with the elements of a.
+func growArray(t reflect.Type, a array, n int) array {
+	b := makeArray(t, n)
+	if a.len > 0 && n > 0 {
+		// The copy goes through reflect so the elements are moved with the
+		// write barriers their type requires.
+		src := slice{ptr: a.elem, len: a.len, cap: a.len}
+		dst := slice{ptr: b.elem, len: b.len, cap: b.len}
+		typ := reflect.SliceOf(t)
+		reflect.Copy(
+			reflect.NewAt(typ, unsafe.Pointer(&dst)).Elem(),
+			reflect.NewAt(typ, unsafe.Pointer(&src)).Elem(),
+		)
+	}
+	return b
+}
+
 func (a array) index(i int) value {
 	return value{ptr: unsafe.Pointer(uintptr(a.elem) + (uintptr(i) * a.size))}
 }
